@@ -299,6 +299,10 @@ func execReal(line string) zv.Out {
 		if len(f) == 11 {
 			return execFault(f)
 		}
+	case "seg":
+		if len(f) == 14 {
+			return execSeg(f)
+		}
 	}
 	return zv.Out{Viol: "rig: malformed line", Tags: []string{"real:malformed"}}
 }
@@ -359,14 +363,34 @@ func (s *session) close() {
 }
 
 func establish(p pair, dynOff, beastOff bool) (*session, string) {
+	return establishWith(p, dynOff, beastOff, estOpts{})
+}
+
+// estOpts: tweak may adjust the two configurations before the handshake; alignClient makes the client's transport
+// serve the handshake record by record (no read-ahead), so that post-handshake messages of the server stay queued.
+type estOpts struct {
+	tweak       func(ccfg, scfg *tls.Config)
+	alignClient bool
+}
+
+func establishWith(p pair, dynOff, beastOff bool, eo estOpts) (*session, string) {
 	ccfg, scfg := configs(p.vers, p.suite, p.cert)
 	for _, c := range []*tls.Config{ccfg, scfg} {
 		c.DynamicRecordSizingDisabled = dynOff
 		c.DisableTLS10BEASTMitigation = beastOff
 	}
+	if eo.tweak != nil {
+		eo.tweak(ccfg, scfg)
+	}
 	s := &session{}
 	res := tlsrig.Handshake(ccfg, scfg, tlsrig.Opts{KeepOpen: true, Timeout: realWait,
-		WrapClient: func(c net.Conn) net.Conn { s.cbox = tlsrig.NewRecordBox(c); return s.cbox },
+		WrapClient: func(c net.Conn) net.Conn {
+			s.cbox = tlsrig.NewRecordBox(c)
+			if eo.alignClient {
+				s.cbox.ReadHook = tlsrig.RecordAlignedRead(c)
+			}
+			return s.cbox
+		},
 		WrapServer: func(c net.Conn) net.Conn { s.sbox = tlsrig.NewRecordBox(c); return s.sbox }})
 	s.cc, s.sc = res.Client.Conn, res.Server.Conn
 	bad := ""
@@ -761,6 +785,13 @@ func execXfer(f []string) zv.Out {
 		e.rbox.ReadSeg, e.rbox.Exact = segmenter(r.Fork(), seg), r.Bool()
 		e.wbox.SetMode(tlsrig.BoxLog)
 		o.Tags = append(o.Tags, fmt.Sprintf("real:seg%d", seg), fmt.Sprintf("real:rmode%d", e.rmode))
+	}
+	// the end of the transport may be reported together with the last bytes (io.Reader allows n > 0 with io.EOF);
+	// drawn last so that every other choice of an existing line stays what it was
+	for _, e := range ends {
+		if e.rbox.EOFWithData = e.rbox.Exact && e.rbox.ReadSeg != nil && r.Bool(); e.rbox.EOFWithData {
+			o.Tags = append(o.Tags, "real:xfer:eof-with-data")
+		}
 	}
 	for _, e := range ends {
 		e := e
